@@ -155,33 +155,6 @@ Definition should_record (cfg : config) (ci : conninfo) (oa : obsaddr) : option 
               end
        end.
 
-(* maybeRecordObservation + recordObservationUnlocked *)
-Definition record (cfg : config) (st : state) (c : Z) (oa : obsaddr) : state :=
-  match conn_info cfg c with
-  | None => st
-  | Some ci =>
-    match should_record cfg ci oa with
-    | None => st
-    | Some (l, x) =>
-      if zmem c (closed st) then st
-      else match observer_of (c_remote ci) with
-           | None => st
-           | Some g =>
-             match get Z.eqb c (cobs st) with
-             | Some prev =>
-                 if prev =? tw_id x then st
-                 else
-                   let e1 := remove_external (ext st) (tw_id l) prev g in
-                   mkSt (add_external e1 (tw_id l) (tw_id x) g)
-                        (set Z.eqb c (tw_id x) (cobs st)) (closed st)
-             | None =>
-                 mkSt (add_external (ext st) (tw_id l) (tw_id x) g)
-                      (set Z.eqb c (tw_id x) (cobs st)) (closed st)
-             end
-           end
-    end
-  end.
-
 (* removeConn *)
 Definition remove_conn (cfg : config) (st : state) (c : Z) : state :=
   match get Z.eqb c (cobs st) with
@@ -199,6 +172,36 @@ Definition remove_conn (cfg : config) (st : state) (c : Z) : state :=
         | Some g => mkSt (remove_external (ext st) (tw_id l) x g) cobs' (closed st)
         end
       end
+    end
+  end.
+
+(* maybeRecordObservation + recordObservationUnlocked.  When
+   shouldRecordObservation refuses the (non-nil) report, the connection's
+   previous observation is withdrawn with removeConn: the unusable report
+   still replaces it ("fix: observedaddrs: ..." in /repo). *)
+Definition record (cfg : config) (st : state) (c : Z) (oa : obsaddr) : state :=
+  match conn_info cfg c with
+  | None => st
+  | Some ci =>
+    match should_record cfg ci oa with
+    | None => remove_conn cfg st c
+    | Some (l, x) =>
+      if zmem c (closed st) then st
+      else match observer_of (c_remote ci) with
+           | None => st
+           | Some g =>
+             match get Z.eqb c (cobs st) with
+             | Some prev =>
+                 if prev =? tw_id x then st
+                 else
+                   let e1 := remove_external (ext st) (tw_id l) prev g in
+                   mkSt (add_external e1 (tw_id l) (tw_id x) g)
+                        (set Z.eqb c (tw_id x) (cobs st)) (closed st)
+             | None =>
+                 mkSt (add_external (ext st) (tw_id l) (tw_id x) g)
+                      (set Z.eqb c (tw_id x) (cobs st)) (closed st)
+             end
+           end
     end
   end.
 
